@@ -1441,9 +1441,23 @@ def _r_cylinder(a, W):
     W.call(_AB + "cylinder.Cylinder.volume", lambda: cyl.volume, watch=me)
     W.call(_AB + "cylinder.Cylinder.beam_intersection", cyl.beam_intersection,
            build_vec(a["start"]), build_vec(a["direction"]), watch=me)
+    import scipp as sc
+
+    first = {}
     for kind in a["kinds"]:
-        W.call(_AB + "cylinder.Cylinder.quadrature", cyl.quadrature, kind, watch=me,
-               allowed=(NotImplementedError,) if kind == "bad" else ())
+        r = W.call(_AB + "cylinder.Cylinder.quadrature", cyl.quadrature, kind, watch=me,
+                   allowed=(NotImplementedError,) if kind == "bad" else ())
+        if r is not RAISED:
+            first.setdefault(kind, r)
+    # results do not depend on the call history: the same request again gives the same rule, bit for bit
+    # (seeded/C09-s7: bundled tables renormalised in place on every use)
+    for kind, (p0, w0) in first.items():
+        p1, w1 = cyl.quadrature(kind)
+        if not (sc.identical(p0, p1) and sc.identical(w0, w1)):
+            dw = float(abs(w1.values - w0.values).max() / abs(w0.values).max())
+            raise Violation("history-dependent",
+                            f"Cylinder.quadrature({kind!r}) called again on the same cylinder returns a different "
+                            f"rule (weights differ by up to {dw:.3e} relative): the result depends on earlier calls")
 
 
 @recipe("transmission", "absorption_atoms",
